@@ -36,6 +36,10 @@ type c14Case struct {
 	Threads   [][]c14Op `json:"threads"`
 	Sched     []int     `json:"sched"` // picks: 0 = process(), i+1 = caller thread i
 	Witness   string    `json:"witness,omitempty"`
+	// Dests: extra destinations around the sink (kinds of c14Dests: unreachable
+	// before / after the sink, a second live sink after / before it); with more
+	// than one HostPort the reporter uses the multi-destination transport
+	Dests []int `json:"dests,omitempty"`
 }
 
 type c14Out struct {
@@ -47,6 +51,7 @@ type c14Out struct {
 	Panics   []string  `json:"panics,omitempty"`
 	Hang     string    `json:"hang,omitempty"`
 	Leak     string    `json:"leak,omitempty"`
+	Mirrors  [][]int64 `json:"mirrors,omitempty"` // what the other live destinations received
 	// per call: first and last step index (into Sched) of the call, for the direct predicate
 	Spans [][][2]int `json:"-"`
 }
@@ -167,7 +172,11 @@ func c14Exec(c *c14Case, complete bool) (out c14Out, unfinished []int) {
 	if c.Binary {
 		proto = m3.Binary
 	}
-	r, err := m3.NewReporter(m3.Options{HostPorts: []string{hostport}, Service: "svc", Env: "test",
+	hostports, live := c14Dests(hostport, c.Binary, c.Dests)
+	for _, s := range live {
+		defer s.Close()
+	}
+	r, err := m3.NewReporter(m3.Options{HostPorts: hostports, Service: "svc", Env: "test",
 		MaxQueueSize: c.Cap, Protocol: proto})
 	if err != nil {
 		fatal(err)
@@ -343,6 +352,9 @@ func c14Exec(c *c14Case, complete bool) (out c14Out, unfinished []int) {
 		out.SinkSeen = true
 		out.Sink = sink.Drain()
 	}
+	for _, s := range live {
+		out.Mirrors = append(out.Mirrors, s.Drain())
+	}
 	return
 }
 
@@ -440,9 +452,14 @@ func c14Predicate(c *c14Case, out *c14Out) (pred, what string) {
 		return "second_close_returns_error", "a Close call returned an unexpected error"
 	}
 	if out.Leak != "" {
-		return "no_goroutine_left_after_close", "after Close returned a goroutine of package m3 is still running:\n" + out.Leak
+		return "no_goroutine_left_after_close", fmt.Sprintf("after Close returned a goroutine of package m3 / its transports is still running (%d destinations):\n", 1+len(c.Dests)) + c14Trim(out.Leak)
 	}
-	if !out.SinkSeen {
+	var lists [][]int64
+	if out.SinkSeen {
+		lists = append(lists, out.Sink)
+	}
+	lists = append(lists, out.Mirrors...)
+	if len(lists) == 0 {
 		return "", ""
 	}
 	// the step at which the successful Close returned
@@ -458,28 +475,30 @@ func c14Predicate(c *c14Case, out *c14Out) (pred, what string) {
 			}
 		}
 	}
-	reported := map[int64]int{}
-	after := map[int64]bool{}
-	for i, ops := range c.Threads {
-		for ci, op := range ops {
-			if op.K == 1 || op.K == 2 {
-				reported[op.V]++
-				if closeRet >= 0 && out.Spans[i][ci][0] > closeRet {
-					after[op.V] = true
+	for _, got := range lists { // every live destination on its own
+		reported := map[int64]int{}
+		after := map[int64]bool{}
+		for i, ops := range c.Threads {
+			for ci, op := range ops {
+				if op.K == 1 || op.K == 2 {
+					reported[op.V]++
+					if closeRet >= 0 && out.Spans[i][ci][0] > closeRet {
+						after[op.V] = true
+					}
 				}
 			}
 		}
-	}
-	for _, v := range out.Sink {
-		if v == -1 {
-			continue
-		}
-		if reported[v] == 0 {
-			return "delivered_values_were_reported", fmt.Sprintf("the sink received value %d more often than it was reported (received %v)", v, out.Sink)
-		}
-		reported[v]--
-		if after[v] {
-			return "calls_after_close_are_noops", fmt.Sprintf("value %d was reported by a call that started after Close had returned, and was delivered", v)
+		for _, v := range got {
+			if v == -1 {
+				continue
+			}
+			if reported[v] == 0 {
+				return "delivered_values_were_reported", fmt.Sprintf("the sink received value %d more often than it was reported (received %v)", v, got)
+			}
+			reported[v]--
+			if after[v] {
+				return "calls_after_close_are_noops", fmt.Sprintf("value %d was reported by a call that started after Close had returned, and was delivered", v)
+			}
 		}
 	}
 	return "", ""
@@ -512,7 +531,7 @@ func c14Term(idx int, c *c14Case, out *c14Out) string {
 	if c.Binary {
 		b = 1
 	}
-	return gcase(idx, []int64{int64(c.Cap), b, int64(c.SinkClose)}, in, obs)
+	return gcase(idx, []int64{int64(c.Cap), b, int64(c.SinkClose), int64(1 + len(c.Dests))}, in, obs)
 }
 
 // ---------------------------------------------------------------------------
@@ -547,6 +566,9 @@ func c14FloodCase(r *Rng, allowSharedSamples bool) c14Case {
 	c.Threads = append(c.Threads, []c14Op{{K: 4}, {K: 1, V: next + 1}})
 	if r.Chance(15) {
 		c.SinkClose = r.Intn(20)
+	}
+	if r.Chance(25) {
+		c.Dests = [][]int{{1}, {2}, {3}, {1, 2}, {1, 3}, {4, 2}, {2, 3}}[r.Intn(7)]
 	}
 	for k, nk := 0, r.Range(15, 50); k < nk; k++ {
 		switch p := r.Intn(100); {
@@ -599,6 +621,9 @@ func c14RandomCase(r *Rng, allowSharedSamples bool) c14Case {
 		c.Threads = append(c.Threads, []c14Op{{K: 4}})
 	}
 	n := len(c.Threads)
+	if r.Chance(25) {
+		c.Dests = [][]int{{1}, {2}, {3}, {1, 2}, {1, 3}, {4, 2}, {2, 3}}[r.Intn(7)]
+	}
 	switch p := r.Intn(100); {
 	case p < 12:
 		c.SinkClose = 0
@@ -658,13 +683,16 @@ func c14Class(c *c14Case, out *c14Out) string {
 	} else if c.SinkClose > 0 {
 		sk = "closed-mid-run"
 	}
+	if len(c.Dests) > 0 {
+		sk += fmt.Sprintf(" dests=%d", 1+len(c.Dests))
+	}
 	return fmt.Sprintf("threads=%d cap=%s blocked=%s sink=%s", len(c.Threads), cp, strings.TrimPrefix(b, "+"), sk)
 }
 
 func init() {
 	props["C14"] = func(ctx *Ctx) {
 		ctx.Header("M3CloseCorr")
-		ctx.Res.Rule = "controlled case = (queue capacity, protocol, per-thread call lists over {ReportCount, ReportSamples on one shared bucket handle, Flush, Close}, step at which the sink is closed, complete schedule over the yield points of reportCopyMetric / Flush / Close / process()); compared with the model: label or Blocked after every step, values received by the sink in order, result of every Close; exhaustive enumeration of all interleavings of two small pools, seeded random schedules (half of them starving process() so that the queue fills) for larger pools; non-trivial = two threads interleaved inside the protocol; distinct by (pool, capacity, executed schedule). Storm cases (class storm-*) are uncontrolled and checked only by the direct predicate (no panic, no hang, one nil Close, no goroutine of package m3 left; storm-concurrent-close = 8..32 goroutines behind a barrier calling Close on a fresh reporter, repeated; storm-flush-heavy = 2..6 goroutines calling Flush in a tight loop while 1..3 report, queues 1..4096, every call under recover(); storm-concurrent-allocate = goroutines allocate histograms with one tag set at the same time and every handle must equal (per-bucket sizes, ids, names) the one allocated alone on a fresh reporter; storm-shared-{bucket,counter,gauge,timer} = all goroutines report unique values through ONE allocated handle and no value may reach the sink more often than it was reported)"
+		ctx.Res.Rule = "controlled case = (queue capacity, protocol, per-thread call lists over {ReportCount, ReportSamples on one shared bucket handle, Flush, Close}, step at which the sink is closed, extra destinations (1..3 HostPorts: unreachable before / after the sink, a second live sink), complete schedule over the yield points of reportCopyMetric / Flush / Close / process()); compared with the model: label or Blocked after every step, values received by the sink in order, result of every Close; exhaustive enumeration of all interleavings of two small pools, seeded random schedules (half of them starving process() so that the queue fills) for larger pools; non-trivial = two threads interleaved inside the protocol; distinct by (pool, capacity, executed schedule). Storm cases (class storm-*) are uncontrolled and checked only by the direct predicate (no panic, no hang, one nil Close, no goroutine of package m3 left; storm-concurrent-close = 8..32 goroutines behind a barrier calling Close on a fresh reporter, repeated; multi-destination = a reporter with 2..3 HostPorts (extra destinations unreachable or live), rounds of ReportCount + Flush one datagram each, optionally the sink closed half-way, then Close and the goroutine-leak check over package m3 and its transports; storm-flush-heavy = 2..6 goroutines calling Flush in a tight loop while 1..3 report, queues 1..4096, every call under recover(); storm-concurrent-allocate = goroutines allocate histograms with one tag set at the same time and every handle must equal (per-bucket sizes, ids, names) the one allocated alone on a fresh reporter; storm-shared-{bucket,counter,gauge,timer} = all goroutines report unique values through ONE allocated handle and no value may reach the sink more often than it was reported)"
 		nsched := 0
 		one := func(c *c14Case, known string) bool {
 			out, _ := c14Exec(c, true)
@@ -699,6 +727,14 @@ func init() {
 		}
 		if ctx.Replay != nil {
 			var raw map[string]json.RawMessage
+			if json.Unmarshal(ctx.Replay, &raw) == nil && raw["multi_dest"] != nil {
+				var md c14MultiDest
+				if err := json.Unmarshal(ctx.Replay, &md); err != nil {
+					fatal(err)
+				}
+				c14MultiDestOne(ctx, &md)
+				return
+			}
 			if json.Unmarshal(ctx.Replay, &raw) == nil && raw["flush_storm"] != nil {
 				var fs c14FlushStorm
 				if err := json.Unmarshal(ctx.Replay, &fs); err != nil {
